@@ -81,7 +81,7 @@ impl Prop for C08 {
             };
         }
         let sign = pick_feed_sign(r, std::slice::from_ref(&tree));
-        let shape = r.below(SHAPES.len()) as u8;
+        let shape = crate::feed::shape_for(std::slice::from_ref(&tree), r.below(SHAPES.len()) as u8);
         let scale = crate::feed::pick_scale(r, !tree.needs_positive_feed() && !tree.contains(K::Mul));
         let ws_sum = tree.window_sum();
         let len = if tier == Tier::Thorough && r.chance(0.01) {
